@@ -11,10 +11,11 @@ S=$(mktemp -d /tmp/seedchk.XXXX)
 # with the change
 cp $WT/cJSON.c $WT/cJSON.h $WT/cJSON_Utils.c $WT/cJSON_Utils.h $S/
 SAN=""; grep -q "fsanitize" $D/notes.txt 2>/dev/null && SAN="-fsanitize=address,undefined -g"; grep -q -- "--wrap=malloc" $D/notes.txt 2>/dev/null && SAN="-Wl,--wrap=malloc,--wrap=realloc,--wrap=free"
-( cd $S && cc $SAN -I$S $D/demo.c cJSON.c cJSON_Utils.c -lm -o demo_mut 2>/dev/null; ./demo_mut >/dev/null 2>&1; echo $? > rc_mut )
+LIBSRC="cJSON.c cJSON_Utils.c"; grep -q '#include "cJSON.c"' $D/demo.c && LIBSRC=""   # a demo that #includes the library source is compiled alone
+( cd $S && cc $SAN -I$S $D/demo.c $LIBSRC -lm -o demo_mut 2>/dev/null; ./demo_mut >/dev/null 2>&1; echo $? > rc_mut )
 # without
 git -C $WT show HEAD:cJSON.c > $S/cJSON.c; git -C $WT show HEAD:cJSON_Utils.c > $S/cJSON_Utils.c
-( cd $S && cc $SAN -I$S $D/demo.c cJSON.c cJSON_Utils.c -lm -o demo_orig 2>/dev/null; ./demo_orig >/dev/null 2>&1; echo $? > rc_orig )
+( cd $S && cc $SAN -I$S $D/demo.c $LIBSRC -lm -o demo_orig 2>/dev/null; ./demo_orig >/dev/null 2>&1; echo $? > rc_orig )
 RCM=$(cat $S/rc_mut); RCO=$(cat $S/rc_orig)
 # test suite with the change
 ( cd $WT && cmake -G Ninja -S . -B _build -DENABLE_CJSON_TEST=On >/dev/null 2>&1 && cmake --build _build >/dev/null 2>&1 && ctest --test-dir _build -j8 2>&1 | grep "tests passed" ) > $S/tests.txt
